@@ -38,8 +38,8 @@ def run(tier, seed):
         poolsfam.model_sim(check, "2g-2calls-6obj", "g1, g2", 2, False, 6, 6000)
         poolsfam.model_sim(check, "3g-2calls-7obj-panic", "g1, g2, g3", 2, True, 7, 6000)
     # 2. independence + ownership on real executions (outcomes vs alone/fresh references, pool monitor on the merged stream)
-    gs = "2,8,32" if quick else "2,3,4,8,16,32,64,64"
-    n = 20 if quick else 150
+    gs = "2,8,32" if quick else "2,3,4,8,16,32,64"   # measured: one 64-goroutine x 150-call chunk keeps Trace_Pools busy for > 25 min
+    n = 20 if quick else 50
 
     def run_driver(cmd, label, env=None):
         """The Go runtime itself ends the process when it sees an unsynchronised map access ("fatal error: concurrent map
@@ -63,8 +63,8 @@ def run(tier, seed):
         meta = json.load(open(os.path.join(wdc, "meta.json")))
         cfg = "SPECIFICATION Spec\nINVARIANT Done\nCHECK_DEADLOCK FALSE\nCONSTANT FullStream = %s\n" % ("TRUE" if full else "FALSE")
         nfail = 0
-        for c in schemafam.chunks(wdc):
-            rr = common.tlc_or_inconclusive(c, "Trace_Pools", cfg, timeout=3600, heap="4g")
+        cks = schemafam.chunks(wdc)
+        for c, rr in zip(cks, common.parallel(lambda c: common.tlc_or_inconclusive(c, "Trace_Pools", cfg, timeout=3600, heap="4g"), cks, jobs=4)):
             nev = sum(1 for _ in open(os.path.join(c, "events.ndjson")))
             if "TRACE-DONE" not in rr["out"] or rr["distinct"] != nev + 1:
                 raise Inconclusive("pool trace not fully consumed: %s" % c)
